@@ -2,6 +2,7 @@ import Amqp.Base.Bytes
 import Amqp.Gen.Const
 import Amqp.Gen.Negotiate
 import Amqp.Gen.Handshake
+import Amqp.Gen.Lifecycle
 /-
   C09 model: the connection handshake as `Channel0.on_frame` / `Connection.open` perform it.
 
@@ -274,10 +275,22 @@ def run (cfg : Config) : St → List Act → St × Outcome
     | (st', .pending) => run cfg st' as
     | r => r
 
+/-- what `open()` does when the guarded handshake raises, before re-raising (regenerated, `Gen.Lifecycle`) -/
+def failCleanup (st : St) : St :=
+  let st := if Gen.Lifecycle.openFailureCleanup.contains "state-closed" then { st with state := Gen.Const.stateClosed } else st
+  if Gen.Lifecycle.openFailureCleanup.contains "io-close" then { st with readerAlive := false } else st
+
 /-- `Connection.open()` against an interleaving of reader and caller actions -/
 def openConn (cfg : Config) (ioOk : Bool) (as : List Act) : St × Outcome :=
   match openStart ioOk with
   | (st, .pending) => run cfg st as
+  | r => r
+
+/-- `open()` as the caller sees it: a failure inside the guarded handshake is followed by the cleanup
+    (C08's subject) before the exception leaves `open()` -/
+def openConnFinal (cfg : Config) (ioOk : Bool) (as : List Act) : St × Outcome :=
+  match openConn cfg ioOk as with
+  | (st', .failed e) => if ioOk then (failCleanup st', .failed e) else (st', .failed e)
   | r => r
 
 /-- the statement skeletons the step functions above were written against -/
